@@ -490,6 +490,8 @@ def random_history(rnd, max_writes=5):
             m = rnd.choice(MODES)
             how = rnd.random()
             a, s = (m, None) if how < 0.45 else (None, m) if how < 0.9 else (m, rnd.choice(MODES))
+            if (a if a is not None else s) == "append" and n not in cur and rnd.random() < 0.75:
+                a, s = rnd.choice([(None, None), ("overwrite", None), (None, "ignore")])   # keep most histories going
             eff = a if a is not None else s
             cols = None
             if eff == "append" and n in cur and rnd.random() < 0.8:
@@ -518,7 +520,9 @@ def random_history(rnd, max_writes=5):
             key = rnd.choice(list(paths))
             m = rnd.choice(MODES)
             how = rnd.random()
-            a, s = (m, None) if how < 0.6 else (None, m) if how < 0.9 else (m, rnd.choice(MODES))
+            a, s = (m, None) if how < 0.8 else (None, m) if how < 0.9 else (m, rnd.choice(MODES))
+            if (a if a is not None else s) == "append" and rnd.random() < 0.7:
+                a, s = "overwrite", s
             fr = gen_frame(rnd, file_safe=rnd.random() < 0.93, bad=rnd.random() < 0.12)
             ops.append(["wpath", key, paths[key], a, s, fr])
             writes += 1
@@ -565,10 +569,10 @@ def signature(ops, obs, snaps, i) -> str:
         fr = o[5]
         if fr["bad"] is not None and not before["files"].get(o[1], False) and after["files"].get(o[1], False):
             return SIG_PARTIAL
-        if o[3] is None and o[4] is not None:
-            return SIG_WMODE
         if eff(o[3], o[4]) == "append" and obs[i] == ["err", "ENotImpl"]:
             return SIG_PAPPEND
+        if o[3] is None and o[4] is not None:
+            return SIG_WMODE
     if k == "save" and eff(o[2], o[3]) == "append":
         if o[1] not in before["tabs"] and obs[i] == ["err", "EMissing"]:
             return SIG_APPEND_ABSENT
@@ -781,9 +785,9 @@ def run(ctx: core.Ctx):
     try:
         import multiprocessing
         from concurrent.futures import ProcessPoolExecutor
-        with ProcessPoolExecutor(max_workers=6, mp_context=multiprocessing.get_context("spawn")) as ex:
+        with ProcessPoolExecutor(max_workers=8, mp_context=multiprocessing.get_context("spawn")) as ex:
             fbig = ex.submit(big_fault_probes, scratch)
-            chunks = [todo[i::24] for i in range(24)]
+            chunks = [todo[i::32] for i in range(32)]
             futs = [ex.submit(run_many, [(i, ops) for i, _, ops in ch], scratch) for ch in chunks if ch]
             done = {}
             for f in futs:
